@@ -9,7 +9,7 @@
    spec_hops is the eager, purely algebraic reading of a history. *)
 From Coq Require Import List ZArith Bool Arith Permutation.
 From MV Require Import Csg.CsgDefs Csg.CsgAlgebra Csg.CsgHeap Csg.CsgVisit Csg.CsgModel
-     Csg.CsgVoxelDefs Csg.CsgVoxel Csg.CsgThms Csg.CsgStack Csg.CsgFinal.
+     Csg.CsgVoxelDefs Csg.CsgVoxel Csg.CsgThms Csg.CsgStack Csg.CsgFinal Csg.CsgStatusDefs Csg.CsgStatus Csg.CsgStatusThms.
 Import ListNotations.
 
 (* Run ANY history of client operations (constructors, BatchBoolean, + - ^,
@@ -170,7 +170,7 @@ Print Assumptions compose_is_union_when_disjoint.
 (* termination of ToLeafNode (big-step): fuel = number of children cells *)
 Theorem to_leaf_terminates :
   forall (A : CsgOps), CsgLaws A ->
-  forall (uniq : nat -> nat -> bool) (ovl : (sol A * tr A) -> (sol A * tr A) -> bool)
+  forall (uniq : heap A -> nat -> bool) (ovl : (sol A * tr A) -> (sol A * tr A) -> bool)
          (sz : (sol A * tr A) -> Z) (kmax : nat),
     ovl_sound A ovl -> 2 <= kmax ->
   forall (h : heap A) (id : nat) (o : op) (t : tr A) (c : nat) (ca : option nat) (fuel : nat),
@@ -193,7 +193,7 @@ Print Assumptions laws_have_a_model.
    the stack machine returns too, after some number of loop iterations.  No law
    of the carrier and no invariant is needed: it is a fact about the two programs. *)
 Theorem stack_refines_bigstep :
-  forall (A : CsgOps) (uniq : nat -> nat -> bool) (ovl : (sol A * tr A) -> (sol A * tr A) -> bool)
+  forall (A : CsgOps) (uniq : heap A -> nat -> bool) (ovl : (sol A * tr A) -> (sol A * tr A) -> bool)
          (sz : (sol A * tr A) -> Z) (kmax : nat) (fuel : nat) (h : heap A) (id : nat) (r : heap A * nat),
     to_leaf_rec A uniq ovl sz kmax fuel h id = Some r ->
     exists fuel', to_leaf_stack A uniq ovl sz kmax fuel' h id = Some r.
@@ -215,3 +215,97 @@ Theorem stack_force_denotes :
          exists i', handle A s' b = Some i' /\ eqS A (dn A (st_heap A s') i') w).
 Proof. exact stack_force_denotes_thm. Qed.
 Print Assumptions stack_force_denotes.
+
+(* ---------------- "... and the same Status" ---------------- *)
+(* StatOps A E ejoin eqE (CsgStatusDefs.v): the carrier lifted to "a solid or an error code" with the forwarding rules
+   of Boolean3::Result / CsgLeafNode::Compose / Impl::Transform; first_wins is the pinned rule (the first errored
+   operand's code), any_code identifies all codes.  status_same: for every history, every oracle answer, two histories
+   that differ only in forcing calls force a handle to leaves that are both errored or both fine with the same solid,
+   and errored exactly when the eager algebraic reading is. *)
+Theorem status_same :
+  forall (A : CsgOps), CsgLaws A -> forall (E : Type),
+  let S1 := StatOps A E first_wins any_code in
+  forall (O1 O2 : oracles S1) (l1 l2 : list (hop S1)) sp1 sp2 (a : nat) (v : sol S1),
+    oracles_ok S1 O1 -> oracles_ok S1 O2 ->
+    strip_force S1 l1 = strip_force S1 l2 ->
+    spec_hops S1 [] l1 = Some sp1 -> spec_hops S1 [] l2 = Some sp2 ->
+    sp_handle S1 sp1 a = Some v ->
+    exists s1 s2 lid1 lid2 lf1 lf2,
+      run S1 O1 (S (length l1)) false (l1 ++ [HForce S1 a]) = Some s1 /\
+      run S1 O2 (S (length l2)) false (l2 ++ [HForce S1 a]) = Some s2 /\
+      handle S1 s1 a = Some lid1 /\ get_node S1 (st_heap S1 s1) lid1 = Some (NLeaf S1 lf1) /\
+      handle S1 s2 a = Some lid2 /\ get_node S1 (st_heap S1 s2) lid2 = Some (NLeaf S1 lf2) /\
+      is_err (lden S1 lf1) = is_err (lden S1 lf2) /\ is_err (lden S1 lf1) = is_err v /\
+      (forall x y, lden S1 lf1 = Ok x -> lden S1 lf2 = Ok y -> eqS A x y).
+Proof. exact status_same_thm. Qed.
+Print Assumptions status_same.
+
+(* WHICH code is reported is NOT history independent on the pinned tree: e1 (code 1), e2 (code 10), c a cube,
+   r = (e1 ^ e2) ^ c: forced lazily (the temporary collapses, BatchBoolean pops c then e2) the Status is 10, with
+   e1 ^ e2 forced first it is 1 - for the explicit stack and the big-step evaluator alike.  Replayed on the real code
+   by checks/C03.py (status_witness): same two codes. *)
+Theorem status_code_refuted :
+  oracles_ok SVoxOps st_oracles /\
+  strip_force SVoxOps st_lazy = strip_force SVoxOps st_eager /\
+  st_result true st_lazy 4 = Some (Some 10%Z) /\ st_result true st_eager 4 = Some (Some 1%Z) /\
+  st_result false st_lazy 4 = Some (Some 10%Z) /\ st_result false st_eager 4 = Some (Some 1%Z).
+Proof. exact status_code_refuted_thm. Qed.
+Print Assumptions status_code_refuted.
+
+(* with an order-independent forwarding rule (the smallest code wins) the exact Status is history independent *)
+Theorem status_exact_if_min_wins :
+  forall (A : CsgOps), CsgLaws A ->
+  let S2 := StatOps A Z Z.min (@eq Z) in
+  forall (O1 O2 : oracles S2) (l1 l2 : list (hop S2)) sp1 sp2 (a : nat) (v : sol S2),
+    oracles_ok S2 O1 -> oracles_ok S2 O2 ->
+    strip_force S2 l1 = strip_force S2 l2 ->
+    spec_hops S2 [] l1 = Some sp1 -> spec_hops S2 [] l2 = Some sp2 ->
+    sp_handle S2 sp1 a = Some v ->
+    exists s1 s2 lid1 lid2 lf1 lf2,
+      run S2 O1 (S (length l1)) false (l1 ++ [HForce S2 a]) = Some s1 /\
+      run S2 O2 (S (length l2)) false (l2 ++ [HForce S2 a]) = Some s2 /\
+      handle S2 s1 a = Some lid1 /\ get_node S2 (st_heap S2 s1) lid1 = Some (NLeaf S2 lf1) /\
+      handle S2 s2 a = Some lid2 /\ get_node S2 (st_heap S2 s2) lid2 = Some (NLeaf S2 lf2) /\
+      code_of (lden S2 lf1) = code_of (lden S2 lf2).
+Proof. exact status_exact_if_min_wins_thm. Qed.
+Print Assumptions status_exact_if_min_wins.
+
+(* ---------------- reference counts instead of an oracle ---------------- *)
+(* do_hops_rc takes every canCollapse decision from uniq_rc: no handle on the node, at most one entry in the children
+   vectors of live (reachable) nodes, no other live node on the same children vector.  force_denotes holds for it
+   (big-step, fuel = length + 1, and explicit stack, same final state). *)
+Theorem rc_force_denotes :
+  forall (A : CsgOps), CsgLaws A ->
+  forall (ovl : (sol A * tr A) -> (sol A * tr A) -> bool) (sz : (sol A * tr A) -> Z) (kmax : nat)
+         (l : list (hop A)) (sp : list (option (sol A))) (a : nat) (v : sol A),
+    ovl_sound A ovl -> 2 <= kmax -> spec_hops A [] l = Some sp -> sp_handle A sp a = Some v ->
+    exists fuel s' lid lf,
+      do_hops_rc A ovl sz kmax (S (length l)) false (init_state A) (l ++ [HForce A a]) = Some s' /\
+      do_hops_rc A ovl sz kmax fuel true (init_state A) (l ++ [HForce A a]) = Some s' /\
+      wf A (st_heap A s') /\
+      handle A s' a = Some lid /\ get_node A (st_heap A s') lid = Some (NLeaf A lf) /\ eqS A (lden A lf) v /\
+      (forall b w, sp_handle A sp b = Some w ->
+         exists i', handle A s' b = Some i' /\ eqS A (dn A (st_heap A s') i') w).
+Proof. exact rc_force_denotes_thm. Qed.
+Print Assumptions rc_force_denotes.
+
+Theorem uniq_rc_spec :
+  forall (A : CsgOps) (hs : list (option nat)) (h : heap A) (id : nat),
+    uniq_rc A hs h id = true <->
+    count_occ Nat.eq_dec (handle_ids hs) id = 0 /\
+    child_refs A h (alive A h hs) id <= 1 /\
+    exists c, cell_of A h id = Some c /\ cell_owners A h (alive A h hs) c <= 1.
+Proof. exact uniq_rc_spec_thm. Qed.
+Print Assumptions uniq_rc_spec.
+
+(* ---------------- the bounding-box hypothesis discharged at the instance ---------------- *)
+(* In VoxOps Compose is juxtaposition (a cell covered twice drops out: CsgThms.compose_of_overlapping_is_not_union),
+   the oracle vovl is the closed axis-aligned box of the cells, proved sound (laws_have_a_model); so BatchUnion is
+   the union with NO hypothesis left; CsgThms.batch_union_sound_vs_lying_oracle shows a lying oracle breaks it. *)
+Theorem compose_is_union_voxels :
+  forall (sz : (list vox * list gen) -> Z) (kmax : nat) (l : list (list vox * list gen)),
+    2 <= kmax -> l <> [] ->
+    exists r, batch_union VoxOps vovl sz kmax l = Some r /\
+              (forall p, In p (lden VoxOps r) <-> exists x, In x l /\ In p (lden VoxOps x)).
+Proof. exact compose_is_union_voxels_thm. Qed.
+Print Assumptions compose_is_union_voxels.
